@@ -214,7 +214,7 @@ def step (s : St) (toks : List String) : St × String :=
     | some i => if i < s.nodes.size then ({ s with last := i }, "ok") else bad
     | none => bad
   | "cb" :: rawLen :: ver :: hash :: prev :: bits :: time :: now :: tn :: tn4 :: mb :: mv :: b34 :: b65 :: b66 :: csv :: sw :: tap ::
-      pp :: bo :: ba :: tr :: root :: cnt :: rcnt :: txs => reply do
+      pp :: bo :: ba :: tr :: root :: cnt :: rcnt :: roff :: off :: wgt :: tin :: txs => reply do
       let hash ← Hex.decode hash
       if hash.length ≠ 32 then none
       let prev ← Hex.decode prev
@@ -227,12 +227,13 @@ def step (s : St) (toks : List String) : St × String :=
                              bits := ← bits.toNat?, time := ← time.toNat?, merkleRoot := ← Hex.decode root,
                              trusted := ← b01 tr, build := if (← b01 ba) then some txs else none, buildOk := ← b01 bo, height := 0, mtp := 0,
                              txs := if pp then some txs else none, verifyFlags := 0,
-                             txCount := ← cnt.toNat?, rawCount := ← rcnt.toNat? }
+                             txCount := ← cnt.toNat?, rawCount := ← rcnt.toNat?, rawOffset := ← roff.toNat?,
+                             txOffset := ← off.toNat?, weight := ← wgt.toNat?, totalInputs := ← tin.toNat? }
       match checkBlockM p cons sha256d (← now.toInt?) s.cs bl with
       | none => pure "panic"
       | some (cs, bl, r) =>
         let ntx := match bl.txs with | none => "nil" | some l => toString l.length
-        pure s!"{Proto.boolStr r.dos} {Proto.boolStr r.maybelater} {r.code} {bl.height} {bl.mtp} {bl.verifyFlags} {ntx} {cs.nodes.size} {cs.index.length} {cs.last} {bl.txCount}"
+        pure s!"{Proto.boolStr r.dos} {Proto.boolStr r.maybelater} {r.code} {bl.height} {bl.mtp} {bl.verifyFlags} {ntx} {cs.nodes.size} {cs.index.length} {cs.last} {bl.txCount} {bl.txOffset} {bl.weight} {bl.totalInputs}"
   | _ => bad
 
 def main : IO Unit := Proto.serve ({} : St) step
